@@ -176,9 +176,9 @@ func propSpecs() map[string]*PropSpec {
 		{
 			ID: "C09", Sub: "spg", Level: "model_checking",
 			Harnesses: []HSpec{
-				{Name: "H09", Quick: P{"recipes": 3, "reads": 5, "unwind:randomUint32n": 2, "unwind_expected": 1}, Thorough: P{"recipes": 5, "reads": 9, "unwind:randomUint32n": 3, "unwind_expected": 1}, Reach: []string{"returned", "fault-hit", "no-fault"}},
-				{Name: "H09s", Quick: P{"recipes": 3, "unwind:randomUint32n": 2, "unwind_expected": 1}, Thorough: P{"recipes": 5, "unwind:randomUint32n": 3, "unwind_expected": 1}, Reach: []string{"returned", "generated"}},
-				{Name: "H09d", Quick: P{"recipes": 3, "unwind:randomUint32n": 2, "unwind_expected": 1}, Thorough: P{"recipes": 5, "unwind:randomUint32n": 2, "unwind_expected": 1}, Reach: []string{"same"}},
+				{Name: "H09", Quick: P{"recipes": 3, "reads": 5, "unwind:randomUint32n": 2, "unwind_expected": 1, "maxdecisions": 150}, Thorough: P{"recipes": 5, "reads": 9, "unwind:randomUint32n": 3, "unwind_expected": 1, "maxdecisions": 300}, Reach: []string{"returned", "fault-hit", "no-fault"}},
+				{Name: "H09s", Quick: P{"recipes": 3, "unwind:randomUint32n": 2, "unwind_expected": 1, "maxdecisions": 150}, Thorough: P{"recipes": 5, "unwind:randomUint32n": 3, "unwind_expected": 1, "maxdecisions": 300}, Reach: []string{"returned", "generated"}},
+				{Name: "H09d", Quick: P{"recipes": 3, "unwind:randomUint32n": 2, "unwind_expected": 1, "maxdecisions": 150}, Thorough: P{"recipes": 5, "unwind:randomUint32n": 2, "unwind_expected": 1, "maxdecisions": 300}, Reach: []string{"same"}},
 			},
 			Bounds: map[string]string{
 				"H09":     "five recipes (two character recipes, one with a requirement and a retry; three wordlist recipes with 'one', 'random', a preset and a constructed separator function); the real kernel on symbolic source bytes with at most one (thorough two) rejected word per draw; a source failure at every read position 0..reads (quick 5, thorough 9) delivering 0..3 bytes",
